@@ -107,6 +107,15 @@ def _normalise(text):
                 moves[cands[0]] = home
     for src in sorted(moves, key=len, reverse=True):
         text = re.sub(r"(?<![A-Za-z0-9_:])" + re.escape(src) + r"(?![A-Za-z0-9_])", moves[src], text)
+    # (4) the two submission paths of a mailbox are trait objects `dyn TxFn<A>` / `dyn ForceTxFn<A>` in the pinned tree; when the
+    # shim traits are dropped in favour of plain `dyn Fn(Payload<A>) -> ..` aliases, the two closure types are told apart by
+    # their output (a boxed future: the waiting path; a plain Result: the forcing path) and given the pinned names
+    if "channel::TxFn" not in have["trait"] and "channel::ForceTxFn" not in have["trait"]:
+        FN_ = r"dyn core::ops::function::Fn<\(environment::payload::Payload<([^<>]*)>,\)> \+ \[Output="
+        RES_ = r"core::result::Result<\(\), error::ActorError>"
+        AUTO_ = r"(?: \+ core::marker::Send)?(?: \+ core::marker::Sync)?"
+        text = re.sub(FN_ + r"core::pin::Pin<alloc::boxed::Box<dyn core::future::future::Future \+ \[Output=" + RES_ + r"\]" + AUTO_ + r", alloc::alloc::Global>>\]" + AUTO_, r"dyn channel::TxFn<\1>", text)
+        text = re.sub(FN_ + RES_ + r"\]" + AUTO_, r"dyn channel::ForceTxFn<\1>", text)
     # (3) the body of a provided trait method that was moved into the trait's only (blanket) implementation
     # (`impl<A, S> SpawnableService<S> for A { fn from_registry_and_spawn() { .. } }`) keeps the name it has in the pinned tree
     provided = set(homes.get("provided", {}))
@@ -121,12 +130,50 @@ def _normalise(text):
     return text
 
 
+def _normalise_calls(d):
+    """calls of the submission closures through `Fn::call` (after (4) above their receiver is `dyn channel::TxFn<A>` /
+    `dyn channel::ForceTxFn<A>`) are presented as the trait-method calls `TxFn::send(&tx, payload)` they replace: the
+    payload, tupled by the Fn ABI, becomes the plain second argument again"""
+    for f in d.get("fns", []):
+        for stage in ("pre", "post"):
+            body = f.get(stage)
+            if not body:
+                continue
+            for blk in body["blocks"]:
+                t = blk["t"]
+                if t.get("k") != "call" or t.get("callee") != "core::ops::function::Fn::call":
+                    continue
+                st = t.get("self_ty") or ""
+                tr = "channel::TxFn" if st.startswith("dyn channel::TxFn<") else ("channel::ForceTxFn" if st.startswith("dyn channel::ForceTxFn<") else None)
+                if tr is None or len(t.get("args", [])) != 2:
+                    continue
+                tup = t["args"][1]
+                inner = None
+                if tup.get("k") in ("move", "copy") and len(tup["p"]) == 1:
+                    defs = [s for b2 in body["blocks"] for s in b2["s"] if s.get("k") == "assign" and s.get("p") == tup["p"] and s["r"].get("k") == "agg" and s["r"].get("ak") == "tuple" and len(s["r"].get("ops", [])) == 1]
+                    if len(defs) == 1:
+                        inner = defs[0]["r"]["ops"][0]
+                if inner is None:
+                    continue
+                for b2 in body["blocks"]:
+                    b2["s"] = [s for s in b2["s"] if s is not defs[0]]  # the argument tuple is gone with the Fn ABI
+                t["trait"] = tr
+                t["callee"] = tr + "::send"
+                t["callee_local"] = True
+                t["args"] = [t["args"][0], inner]
+                aty = (t.get("argtys") or ["", ""])[1]
+                if aty.startswith("(") and aty.endswith(",)"):
+                    t["argtys"] = [t["argtys"][0], aty[1:-2]]
+                t["gargs"] = [st]
+    return d
+
+
 def load(cfg, repo="/repo"):
     key = (cfg, repo)
     if key not in _cache:
         path = extract(cfg, repo)
         with open(path) as f:
-            _cache[key] = Facts(json.loads(_normalise(f.read())), cfg, path)
+            _cache[key] = Facts(_normalise_calls(json.loads(_normalise(f.read()))), cfg, path)
     return _cache[key]
 
 
